@@ -303,6 +303,10 @@ def search(spec):
             hit = run({"schema": {"k": "expr", "src": e}}, meta)
             if hit:
                 return hit, n
+        for kind in ("list", "dict"):
+            hit = run({"history": {"k": "str", "v": kind}}, meta)
+            if hit:
+                return hit, n
         from replay.complement import repr_cases
         for e in repr_cases():
             hit = run({"schema": {"k": "expr", "src": e}}, meta)
